@@ -574,6 +574,12 @@ def make_read(rng, idx, plant, fasta, lowercase_ok=True):
         name += " length=%d" % n
     elif extra < 0.5:
         name += "/1"
+    elif extra < 0.56:
+        name += " rc"      # a name that already carries the marker --revcomp appends (output of an earlier run)
+    elif extra < 0.6:
+        name += ";length=%d" % n      # the length tag inside the read ID (no space in front of it)
+    elif extra < 0.65:
+        name += rng.choice(["_t/1", "/1_t", "_t"])   # suffixes stacked: --strip-suffix given twice removes them one after the other
     return (name, seq, qual)
 
 
@@ -623,7 +629,7 @@ def rand_cfg(rng, focus=()):
     if f("names", 0.12):
         c.length_tag = "length="
     if f("names", 0.12):
-        c.strip_suffix = ("/1",) if rng.random() < 0.7 else ("/1", " rc")
+        c.strip_suffix = rng.choice([("/1",), ("/1",), ("/1",), ("/1", " rc"), ("/1", "_t"), ("_t", "/1")])
     if f("names", 0.15):
         c.prefix = rng.choice(["p_", "{name}_", ""])
         c.suffix = rng.choice(["_s", " {name}", ""])
